@@ -22,6 +22,18 @@ CHECKS = {
         "SymNum proxies (validated against the unpatched library with concrete inputs on every run).",
         design="3/C02",
     ),
+    "C06": dict(
+        engine="E2",
+        technique="symbolic execution of the real BHJM_* wrappers (2-row batches vs 1-row and swapped calls) and of the real getBH_level2 "
+        "with uninterpreted per-source field functions over z3 terms; element identities discharged as SMT obligations per feasible path",
+        text="Bounded symbolic model checking: (b) for every feasible mask combination of each wrapper, row a of a 2-row call is the same "
+        "term as the 1-row call and as the swapped call, for all real inputs; (a) getBH_level2's output shape and every element equal the "
+        "reference 'source l alone at held path index m seen by pixel of sensor k', for all poses/pixels, on scenes with duplicates, "
+        "class groups (incl. a group of one at the end), unequal path lengths, squeeze on/off, permuted source order.",
+        note="Real arithmetic; unit input quaternions (SymRot model of scipy Rotation); scenes and shapes from a committed finite list; leaf "
+        "kernels uninterpreted; exact row independence of the iterative elliptic loops (cel_iterv) and the trimesh grouping loop are not decided.",
+        design="3/C06",
+    ),
 }
 
 NOT_APPLICABLE = {
